@@ -130,7 +130,11 @@ class SW:
             if shared and key.get("t") == 0:
                 return {"t": 0}
             return key
+        per_cohort = self.prm_values.get(version) if (self.prm_values and over == "time") else None
+
         def value(key):
+            if isinstance(per_cohort, (list, tuple)):
+                return rat(per_cohort[key["t"]])        # concrete values, one per cohort
             if self.zero_prm == name and self.labels and key.get(self.labels[0]) == 0:
                 return rat(0)           # e.g. no spread at all for one label: an exact zero next to generic values
             return Rat.sym(self._pname(name, version, key), sign)
